@@ -7,7 +7,10 @@ package dissolve
 // at an arbitrary point. Decides C40.
 
 import (
+	"context"
 	"errors"
+	"fmt"
+	"io"
 	"time"
 
 	simrt "github.com/centrifugal/centrifuge/internal/simrt"
@@ -20,6 +23,10 @@ type w6cJob struct {
 	// preempted between taking the job from the queue and the job's first instruction
 	// (the code under test has no synchronisation operation there)
 	PreYield bool `json:"pre_yield,omitempty"`
+	// ErrKind: which error the failing runs return (rotating from this index): a plain
+	// error, context.Canceled (wrapped), context.DeadlineExceeded, io.EOF, a nil-message
+	// custom error - "failed runs are retried" holds whatever the error is
+	ErrKind int `json:"err_kind,omitempty"`
 }
 
 type w6cOp struct {
@@ -29,7 +36,10 @@ type w6cOp struct {
 }
 
 type w6cScript struct {
-	Workers int       `json:"workers"`
+	// RunDelayUs > 0: Run() is called that much later, so some jobs are submitted to a
+	// dissolver whose workers have not been started yet (Node.Run starts it last)
+	RunDelayUs int       `json:"run_delay_us,omitempty"`
+	Workers    int       `json:"workers"`
 	Jobs    []w6cJob  `json:"jobs"`
 	Tasks   [][]w6cOp `json:"tasks"`
 }
@@ -42,8 +52,9 @@ func w6cGen(c *simrt.Choice, prop, tier string) any {
 	}
 	nj := 1 + c.Intn(maxJobs)
 	for i := 0; i < nj; i++ {
-		sc.Jobs = append(sc.Jobs, w6cJob{Fails: c.Pick(4, 3, 2, 1), SleepUs: []int{0, 0, 20, 300, 4000}[c.Intn(5)], PreYield: c.Intn(2) == 1})
+		sc.Jobs = append(sc.Jobs, w6cJob{Fails: c.Pick(4, 3, 2, 1), SleepUs: []int{0, 0, 20, 300, 4000}[c.Intn(5)], PreYield: c.Intn(2) == 1, ErrKind: c.Pick(3, 1, 1, 1, 1)})
 	}
+	sc.RunDelayUs = []int{0, 0, 0, 1, 30, 700}[c.Intn(6)]
 	nt := 1 + c.Intn(2)
 	sc.Tasks = make([][]w6cOp, nt)
 	for i := 0; i < nj; i++ {
@@ -96,6 +107,18 @@ func w6cShrinks(script any) []any {
 		c := clone()
 		c.Workers--
 		out = append(out, c)
+	}
+	if sc.RunDelayUs > 0 {
+		c := clone()
+		c.RunDelayUs = 0
+		out = append(out, c)
+	}
+	for i, j := range sc.Jobs {
+		if j.ErrKind != 0 {
+			c := clone()
+			c.Jobs[i].ErrKind = 0
+			out = append(out, c)
+		}
 	}
 	// drop job i together with its submit operation (later jobs are renumbered)
 	for i := range sc.Jobs {
@@ -162,6 +185,24 @@ type w6cJobState struct {
 
 var errW6c = errors.New("sim job failure")
 
+type w6cEmptyErr struct{}
+
+func (w6cEmptyErr) Error() string { return "" }
+
+func w6cErr(kind int) error {
+	switch kind % 5 {
+	case 1:
+		return fmt.Errorf("sim job interrupted: %w", context.Canceled)
+	case 2:
+		return context.DeadlineExceeded
+	case 3:
+		return io.EOF
+	case 4:
+		return w6cEmptyErr{}
+	}
+	return errW6c
+}
+
 const w6cSlack = time.Millisecond
 
 func w6cRun(s *simrt.Sim, script any, prop string) {
@@ -186,7 +227,18 @@ func w6cRun(s *simrt.Sim, script any, prop string) {
 	maxParallel := 0
 
 	d := New(sc.Workers)
-	_ = d.Run()
+	queueLeftAtClose := -1 // entries the queue still held when Close returned (in-package read)
+	var runAt time.Duration
+	if sc.RunDelayUs > 0 {
+		s.Probe("late_run")
+		s.Go(func() {
+			s.Sleep(time.Duration(sc.RunDelayUs) * time.Microsecond)
+			runAt = s.Now()
+			_ = d.Run()
+		})
+	} else {
+		_ = d.Run()
+	}
 
 	mkJob := func(js *w6cJobState) Job {
 		spec := sc.Jobs[js.idx]
@@ -215,6 +267,11 @@ func w6cRun(s *simrt.Sim, script any, prop string) {
 				switch {
 				case len(js.runs) > 0 && js.runs[len(js.runs)-1].end > closeRet:
 					s.Violate("C40", "retry-after-close", "failed job re-run although its failure came after Close returned", "job %d: run %d failed at ev %d, Close returned at ev %d, run %d started at ev %d", js.idx, len(js.runs), js.runs[len(js.runs)-1].end, closeRet, len(js.runs)+1, r.start)
+				case queueLeftAtClose > 0:
+					// distinguishes "a worker already held the job when Close ran" (the recorded
+					// finding below) from "Close left jobs in the queue and a worker took one
+					// afterwards": the unchanged Close empties the queue, so this never fires there
+					s.Violate("C40", "queued-job-run-after-close", "job execution started after Close returned and Close had left jobs in the queue", "job %d run %d started at ev %d; Close returned at ev %d leaving %d queued entries", js.idx, len(js.runs)+1, r.start, closeRet, queueLeftAtClose)
 				case startsAfterClose > allowance:
 					s.Violate("C40", "drain-after-close", "more job executions started after Close returned than workers could already hold", "job %d started at ev %d: start number %d after Close returned (ev %d); %d workers, %d of them were executing when Close returned", js.idx, r.start, startsAfterClose, closeRet, sc.Workers, sc.Workers-allowance)
 				default:
@@ -237,7 +294,7 @@ func w6cRun(s *simrt.Sim, script any, prop string) {
 			if len(js.runs) <= spec.Fails {
 				r.failed = true
 				s.Fault("job_failure")
-				return errW6c
+				return w6cErr(spec.ErrKind + len(js.runs) - 1)
 			}
 			js.succeeded = true
 			return nil
@@ -254,6 +311,12 @@ func w6cRun(s *simrt.Sim, script any, prop string) {
 		_ = d.Close()
 		closeRet = next()
 		allowance = sc.Workers - nRunning
+		if q, ok := d.queue.(*queueImpl); ok {
+			// plain read, no lock: taking the lock would be a scheduling point between the
+			// return of Close and this observation (the run token serialises all instrumented
+			// code, so the read cannot overlap a write)
+			queueLeftAtClose = q.cnt
+		}
 		s.Event("close running=%d", nRunning)
 	}
 
@@ -307,7 +370,7 @@ func w6cRun(s *simrt.Sim, script any, prop string) {
 	}
 	s.Pause()
 	// after the last Submit all remaining work fits into totalWork of virtual time
-	s.Sleep(totalWork + w6cSlack)
+	s.Sleep(totalWork + w6cSlack + time.Duration(sc.RunDelayUs)*time.Microsecond)
 	if closeInv == 0 {
 		doClose()
 	}
@@ -326,6 +389,9 @@ func w6cRun(s *simrt.Sim, script any, prop string) {
 		if js.subRet > closeInv {
 			allSubmittedBeforeClose = false
 		}
+	}
+	if runAt > lastSubRetAt {
+		lastSubRetAt = runAt // nothing can execute before the workers exist
 	}
 	livenessOwed := allSubmittedBeforeClose && closeInvAt >= lastSubRetAt+totalWork+w6cSlack
 	retries := 0
